@@ -9,6 +9,9 @@ broker clients over the simulated cluster (harness/sim/cluster.py).  The brokers
   C09  in every produce request each partition's messages are whole sends in submission order;
        acknowledged sends of one partition have increasing offsets in submission order; once a send
        has been reported acknowledged no later produce request carries its messages.
+  C01/C09  at-least-once and no more: a send's messages are appended to a log a SECOND time only when the
+       acknowledgement of the earlier append did not reach the client (answer swallowed / connection cut / answer
+       later than the client's time-out / error code reported after the append) - `unexcused_duplicates`.
   C19  no Produce request reaches a broker after `stop()`; every send outstanding at `stop()` has fired
        when it returns, with a CancelledError (or truthfully acknowledged).
 
@@ -18,8 +21,20 @@ A script (JSON, also the replay format):
    "steps": [{"at": t, "do": "send", "sid": i, "topic": "t0", "key": hex|null, "sizes": [n|null..]} |
              {"at": t, "do": "cancel", "sid": i} | {"at": t, "do": "stop"} |
              {"at": t, "do": "inject", ...cluster.inject kwargs} | {"at": t, "do": "move_leader", ...} |
-             {"at": t, "do": "kill_broker", "node_id": n} | {"at": t, "do": "start_broker", "node_id": n}],
+             {"at": t, "do": "kill_broker", "node_id": n} | {"at": t, "do": "start_broker", "node_id": n} |
+             {"at": t, "do": "restart_broker", "node_id": n[, "host": h, "port": p]}   (a new address: only metadata names it) |
+             {"at": t, "do": "shift_leader", "topic": "t0", "partition": p|null, "by": k, "old": "not_leader"|"unknown"} |
+             {"at": t, "do": "set", "broker": n, "attr": a, "value": v} | {"at": t, "do": "heal_silence", "node_id": n}],
    "until": T}
+A step with "settle": false is followed by the next step BEFORE any byte moves (a request written by the client has not
+reached its broker yet).  "client" may carry "disconnect_on_timeout".
+
+Situations measured where they really occurred (`situations`, histogram keys fs:...): a produce attempt refused by a
+former leader and the send then acknowledged by another broker (with the batch in flight / the request on the wire when
+leadership moved); a broker restarted at a new address, connections accepted and produce requests acknowledged there;
+ApiVersions requests left unanswered and how the run ended (fallback to v0, produce v0 requests); produce responses
+with mixed per-partition outcomes (by error code); produce answers delivered after the client's time-out; sends
+appended more than once (by what became of the first acknowledgement).
 """
 import json
 import warnings
@@ -40,7 +55,10 @@ def batch_bound(script):
     delays = sum(prod["retry_interval"] * 1.20205 ** k for k in range(attempts))
     hosts = script["cluster"]["brokers"] if isinstance(script["cluster"]["brokers"], int) else len(script["cluster"]["brokers"])
     faults = sum(st.get("seconds", 0) for st in script["steps"] if st.get("action") == "delay")
-    return 3 * (attempts * (timeout + hosts * (timeout + CONNECT_TIMEOUT)) + delays + faults) + 10
+    # version discovery inside the first request: up to 3 rounds over every host (each <= one connection attempt + timeout)
+    discovery = 3 * hosts * (timeout + CONNECT_TIMEOUT) if any(
+        st.get("api") == "ApiVersions" or st.get("attr") in ("api_versions", "old_broker_mode") for st in script["steps"]) else 0
+    return 3 * (attempts * (timeout + hosts * (timeout + CONNECT_TIMEOUT)) + delays + faults + discovery) + 10
 
 
 
@@ -52,8 +70,16 @@ def gen_script(rng, pid):
     swallowed / answered late / connection dropped; the whole broker hung; the broker cut off - connections dropped
     and new ones refused or never completing): a request of the client then fails for one broker's payloads while
     the others' are answered."""
-    shape = rng.choice(["classic", "classic", "multibroker", "multibroker", "multibroker"])
-    if shape == "multibroker":
+    shape = rng.choice(["classic", "classic", "multibroker", "multibroker", "multibroker", "wide"])
+    wide = shape == "wide"
+    if wide:
+        # few brokers, many partitions, batching: ONE broker request carries several partitions, so that one
+        # response can answer some of them with error 0 and others with an error code (partial-batch errors)
+        shape = "multibroker"
+        brokers = rng.choice([1, 2, 2])
+        topics = {"t0": rng.choice([3, 4, 5]), "t1": rng.choice([2, 3])}
+        batch = True
+    elif shape == "multibroker":
         brokers = rng.choice([2, 3, 3])
         topics = {"t0": rng.choice([2, 3, 3, 4]), "t1": rng.choice([1, 2, 3])}
         batch = rng.random() < 0.8
@@ -72,12 +98,17 @@ def gen_script(rng, pid):
         "codec": rng.choice([None, None, 1]),
         "partitioner": "hashed" if rng.random() < 0.25 else "rr",
     }
+    client = {"timeout": rng.choice([2000, 5000, 10000] if shape == "classic" else [1000, 2000, 5000])}
+    if rng.random() < 0.15:
+        client["disconnect_on_timeout"] = True  # (then an answer that comes after the time-out finds the connection closed)
     steps = []
     t = 0.0
     nsend = rng.choice([2, 4, 6, 10])
     keys = [None, "6b", "6b32", "00ff10"]
     sid = 0
-    if shape == "multibroker":
+    if wide:
+        fault_style = rng.choice(["errors", "errors", "errors", "persist", "mixed", "broker", "none"])
+    elif shape == "multibroker":
         fault_style = rng.choice(["broker", "broker", "broker", "broker", "errors", "mixed", "none"])
     else:
         fault_style = rng.choice(["none", "errors", "errors", "persist", "transport", "leader", "mixed"])
@@ -89,8 +120,15 @@ def gen_script(rng, pid):
         part = rng.randrange(topics[topic])
         style = fault_style if fault_style != "mixed" else rng.choice(["errors", "persist", "transport", "leader", "broker"])
         if style == "errors":
-            steps.append({"at": ft, "do": "inject", "action": "error", "api": "Produce", "topic": topic, "partition": part,
-                          "code": rng.choice([6, 3, 7, 19, 5, 2, 10]), "times": rng.choice([1, 1, 2, 3])})
+            # (the error is forced for THAT partition only: the other partitions of the request are served.  Retriable
+            # codes, codes Kafka does not call retriable - 2, 10, 4, 17, 18, 21, 29, 1 - and unknown ones.  7 / 20 may be
+            # a lie told after the append: "timed out / not enough replicas AFTER APPEND" - the retry then duplicates)
+            st = {"at": ft, "do": "inject", "action": "error", "api": "Produce", "topic": topic, "partition": part,
+                  "code": rng.choice([6, 3, 7, 19, 5, 2, 10, 6, 3, 7, 19, 5, 2, 10, 20, 18, 17, 4, 21, 29, 9, 8, 1, -1, 77]),
+                  "times": rng.choice([1, 1, 2, 3])}
+            if st["code"] in (7, 20) and rng.random() < 0.6:
+                st["apply"] = True
+            steps.append(st)
         elif style == "persist":
             steps.append({"at": ft, "do": "inject", "action": "error", "api": "Produce", "topic": topic, "partition": part,
                           "code": rng.choice([6, 19, 7, 10]), "times": None})
@@ -152,11 +190,89 @@ def gen_script(rng, pid):
         if rng.random() < (0.15 if pid == "C19" else 0.05):
             steps.append({"at": round(t + rng.choice([0, 0.05, 0.5]), 3), "do": "cancel", "sid": sid})
         sid += 1
+    gen_situations(rng, steps, brokers, topics, client, prod)
     if rng.random() < (0.6 if pid == "C19" else 0.3):
         steps.append({"at": round(rng.random() * (t + 1.5), 3), "do": "stop"})
     return {"fullstack": True, "seed": rng.randrange(1 << 30), "cluster": {"brokers": brokers, "topics": topics},
-            "client": {"timeout": rng.choice([2000, 5000, 10000] if shape == "classic" else [1000, 2000, 5000])},
-            "producer": prod, "steps": steps, "until": 200.0}
+            "client": client, "producer": prod, "steps": steps, "until": 200.0}
+
+
+def gen_situations(rng, steps, brokers, topics, client, prod):
+    """Situations placed RELATIVE TO THE SENDS of the script (each drawn independently, on top of the fault style):
+    leadership moving while sends are under way, a broker coming back at another address, version discovery that is
+    not answered, a produce answer that arrives after the client timed the request out."""
+    sends = [st for st in steps if st["do"] == "send"]
+    timeout = client["timeout"] / 1000.0
+
+    def near_send(first=False):
+        st = sends[0] if first else rng.choice(sends)
+        return st, round(st["at"] + rng.choice([0, 0, 0.001, 0.01, 0.05, 0.2, 0.6]), 3)
+
+    # (a) leadership moves between / during the requests of a batch: the client's cache still names the old leader,
+    # which answers NotLeaderForPartition (or UnknownTopicOrPartition); the retry must find the new one.  "wire": the
+    # move happens after the client wrote the request and before the old leader reads it.
+    if brokers > 1 and rng.random() < 0.25:
+        for _ in range(rng.choice([1, 1, 2])):
+            st, at = near_send()
+            topic = st["topic"]
+            mv = {"at": at, "do": "shift_leader", "topic": topic,
+                  "partition": rng.choice([None, rng.randrange(topics[topic])]),  # None: every partition of the topic
+                  "by": rng.randrange(1, brokers), "old": rng.choice(["not_leader", "not_leader", "not_leader", "unknown"])}
+            if rng.random() < 0.4:
+                mv["at"] = st["at"]
+                st["settle"] = False  # the next step runs before any byte of this send's request has moved
+                steps.insert(steps.index(st) + 1, mv)
+            else:
+                steps.append(mv)
+    # (b) a broker is restarted at another address (same node id): only the metadata names the new one
+    if rng.random() < 0.15:
+        node = rng.randrange(1, brokers + 1)
+        _st, at = near_send()
+        k = rng.randrange(1, 4)
+        steps.append({"at": at, "do": "restart_broker", "node_id": node, "host": rng.choice([None, "kafka%d-%d.sim" % (node, k)]),
+                      "port": 9092 + k})
+        if rng.random() < 0.3:
+            steps.append({"at": round(at + rng.choice([0.5, 3, 12]), 3), "do": "restart_broker", "node_id": node,
+                          "host": "kafka%d.sim" % node, "port": 9092})
+    # (c) version discovery (ApiVersions, made inside the first produce call) is not answered / answered late /
+    # cut off / refused by a broker that predates it
+    if rng.random() < 0.15:
+        how = rng.choice(["silent", "silent", "delay", "drop_before", "old-ignore", "error"])
+        node = rng.choice([None, None, rng.randrange(1, brokers + 1)])
+        if how == "old-ignore":
+            # a broker that predates ApiVersions and drops the request on the floor (one that CLOSES the connection
+            # instead is "drop_before" a finite number of times: a connection cut on every request is re-made and the
+            # request re-sent for ever at one virtual instant - the simulated network has no latency)
+            # (every broker: the client keeps ONE version table for the cluster; a request version only the newer brokers
+            # of a mixed cluster know makes the old one close the connection on every copy of it)
+            for n in range(1, brokers + 1):
+                steps.append({"at": 0.0, "do": "set", "broker": n, "attr": "old_broker_mode", "value": "ignore"})
+                steps.append({"at": 0.0, "do": "set", "broker": n, "attr": "api_versions", "value": None})
+        else:
+            st = {"at": 0.0, "do": "inject", "action": how, "api": "ApiVersions",
+                  "times": rng.choice([1, 1, 2, 3, None] if how != "drop_before" else [1, 1, 2, 3])}
+            if node:
+                st["broker"] = node
+            if how == "delay":
+                st["seconds"] = round(timeout * rng.choice([0.5, 1.5, 3]), 3)
+            if how == "silent":
+                st["block"] = rng.random() < 0.5
+            if how == "error":
+                st["code"] = rng.choice([35, -1, 2])
+            steps.append(st)
+        # (scripts are executed in `at` order, ties in list order: these come before the first send)
+        steps.sort(key=lambda x: 0 if x.get("api") == "ApiVersions" or x.get("attr") in ("api_versions", "old_broker_mode") else 1)
+    # (e) the answer to a produce request arrives AFTER the client timed it out (the broker has appended the messages):
+    # the retry appends them again - at-least-once
+    if rng.random() < 0.2:
+        _st, at = near_send(first=rng.random() < 0.5)
+        st = {"at": max(0.0, round(at - 0.001, 3)), "do": "inject", "action": "delay", "api": "Produce",
+              "seconds": round(timeout + rng.choice([0.001, 0.1, 0.5, 2, timeout]), 3), "times": rng.choice([1, 1, 2])}
+        if rng.random() < 0.5:
+            st["broker"] = rng.randrange(1, brokers + 1)
+        else:
+            st["topic"] = rng.choice(TOPICS)
+        steps.append(st)
 
 
 class FSRun(object):
@@ -173,6 +289,8 @@ class FSRun(object):
         self.stuck = None
         self.stuck_sends = []
         self.tracer = None
+        self.moves = []  # of the `shift_leader` steps: what was under way when leadership moved
+        self.client = None
 
 
 def run_script(script, trace=False):
@@ -196,7 +314,7 @@ def run_script(script, trace=False):
     with warnings.catch_warnings(), F.Determinism(cluster, script["seed"]):
         warnings.simplefilter("ignore")
         try:
-            client = F.make_client(cluster, **script.get("client", {}))
+            client = r.client = F.make_client(cluster, **script.get("client", {}))
             kw = dict(script["producer"])
             part = kw.pop("partitioner", "rr")
             kw["partitioner_class"] = HashedPartitioner if part == "hashed" else RoundRobinPartitioner
@@ -253,12 +371,27 @@ def run_script(script, trace=False):
                     cluster.inject(kw2.pop("action"), **kw2)
                 elif do == "set":
                     setattr(cluster.brokers[st["broker"]], st["attr"], st["value"])
+                elif do == "shift_leader":
+                    # leadership of one partition (or of every partition of the topic) moves `by` brokers on
+                    ids = sorted(cluster.brokers)
+                    parts = list(cluster.topics[st["topic"]].partitions) if st.get("partition") is None else [st["partition"]]
+                    queued = set(id(q.deferred) for q in producer._batch_reqs)
+                    inflight = [sid for sid, sd in r.sends.items() if not r.outcomes[sid] and id(sd["d"]) not in queued] \
+                        if producer._batch_send_d is not None else []
+                    for p_ in parts:
+                        cur = cluster.leader_of(st["topic"], p_)
+                        new = ids[(ids.index(cur) + st["by"]) % len(ids)] if cur in ids else ids[st["by"] % len(ids)]
+                        cluster.move_leader(st["topic"], p_, new, old=st.get("old", "not_leader"))
+                    r.moves.append({"n": cluster._seq, "topic": st["topic"], "parts": parts, "inflight": inflight,
+                                    "open_corrs": [q["corr"] for call in r.tracer.client.calls for q in call.reqs if q["out"] is None]
+                                    if r.tracer is not None else []})
                 elif do in ("move_leader", "kill_broker", "start_broker", "restart_broker", "heal_silence"):
-                    kw2 = {k: v for k, v in st.items() if k not in ("at", "do")}
+                    kw2 = {k: v for k, v in st.items() if k not in ("at", "do", "settle")}
                     getattr(cluster, do)(**kw2)
                 else:
                     raise ValueError(do)
-                cluster.settle()
+                if st.get("settle", True):
+                    cluster.settle()
             cluster.run_until_idle(timeout=max(0.0, script.get("until", 200.0) - cluster.clock.seconds()))
             # LIVENESS: the batch in flight resolves.  Every attempt of the client ends within its request timeout
             # (plus the metadata look-ups it makes), there are at most max_req_attempts of them, the retry delays
@@ -294,7 +427,7 @@ def run_script(script, trace=False):
     r.producer_cfg = script["producer"]
     # (faults under which a request handed to a connection may never be seen by a broker: the connection is cut;
     # a broker that merely refuses / never completes NEW connections, or hangs, is not one of them)
-    r.transport_faults = any(st["do"] in ("kill_broker", "move_leader", "restart_broker")
+    r.transport_faults = any(st["do"] in ("kill_broker", "move_leader", "restart_broker", "shift_leader")
                              or st.get("action") in ("drop_before", "drop_after", "silent", "delay") for st in script["steps"])
     return r
 
@@ -347,6 +480,68 @@ def produce_requests(cluster):
                     flat = msgs
                 parts.append((t["topic"], pd["partition"], [(m["key"], m["value"]) for m in flat]))
         out.append((e, parts))
+    return out
+
+
+def client_records(r):
+    """{correlation id: the real client's own record of that broker request} (producer_fstrace.ClientCall.reqs): what the
+    CLIENT saw of it - ("ok", rows) the response it received, ("fail", kind) how it failed, None still pending"""
+    if r.tracer is None:
+        return None
+    recs = {q["corr"]: q for call in r.tracer.client.calls for q in call.reqs if q.get("corr") is not None}
+    for e in r.cluster.requests(api="Produce"):
+        recs[("last", e.get("corr"))] = e
+    return recs
+
+
+def appends_of(r, reqs, want):
+    """{sid: [(request entry, applied record)]} - the appends (messages really written to a partition log, whatever the
+    broker then answered) that carry the send's first message, in execution order.  Only sends whose first message is
+    theirs alone (its value starts with the send's own tag "<sid>:0|") can be followed through the logs."""
+    out = {}
+    for sid, w in want.items():
+        v0 = w[0][1] if w else None
+        if v0 is None or not v0.startswith(b"%d:0|" % sid):
+            continue
+        topic = r.sends[sid]["topic"]
+        for e, _parts in reqs:
+            for a in e.get("applied", []):
+                if a.get("op") == "append" and a["topic"] == topic and any((k, v) == w[0] for (_o, k, v) in a["messages"]):
+                    out.setdefault(sid, []).append((e, a))
+    return out
+
+
+def ack_received(recs, e, a):
+    """did the real client receive the answer of request `e` saying error 0 for the partition of append `a`?
+    (None: not known - no client-side record of that request)"""
+    from harness.lib import producer_drive as D
+
+    q = recs.get(e.get("corr")) if recs is not None else None
+    if q is None or q["node"] != e["broker"]:
+        return None
+    if q["out"] is None or q["out"][0] != "ok":
+        return False
+    # (a broker client re-sends a request it still waits for - same correlation id - when its connection was cut and
+    # re-made: the answer the client has is the one of the LAST copy, written to an open connection at the moment the
+    # client's record says the request ended)
+    if e.get("fate") != "answered" or e.get("t_sent") != q["t_done"] or recs.get(("last", e.get("corr"))) is not e:
+        return False
+    return any(row[0] == D.topic_index(a["topic"]) and row[1] == a["partition"] and row[2] == 0 for row in q["out"][1])
+
+
+def unexcused_duplicates(r, reqs, want):
+    """AT-LEAST-ONCE, and no more than that: a send's messages are appended a second time only when the acknowledgement
+    of the earlier append did not reach the client (answer swallowed, connection cut, answer later than the client's
+    time-out, an error code reported after the append).  -> [(sid, n of the acknowledged request, n of the later one)]"""
+    recs = client_records(r)
+    if recs is None:
+        return []
+    out = []
+    for sid, apps in sorted(appends_of(r, reqs, want).items()):
+        for (e1, a1), (e2, _a2) in zip(apps, apps[1:]):
+            if a1["error"] == 0 and ack_received(recs, e1, a1):
+                out.append((sid, e1["n"], e2["n"]))
+                break
     return out
 
 
@@ -437,6 +632,11 @@ def check(r, pid):
                 if e["n"] > n and any(p[0] == topic and first in p[2] for p in parts) and want[sid][0][1] not in (None, b""):
                     bad("acked-resent", "send %d was reported acknowledged, yet a later produce request (n=%d) carries its messages again" % (sid, e["n"]))
                     break
+    if pid in ("C09", "C01"):
+        for sid, first, second in unexcused_duplicates(r, reqs, want):
+            bad("duplicate-without-lost-ack", "send %d: produce request n=%d appended its messages and the client RECEIVED that "
+                "acknowledgement (error 0) - yet a later produce request (n=%d) carried them again and they were appended a second "
+                "time (duplicates are at-least-once behaviour only after an acknowledgement that did not arrive)" % (sid, first, second))
     if r.stop_t is not None:
         for e, parts in reqs:
             if e["n"] > r.stop_n:
@@ -470,9 +670,124 @@ def summarize(r, hist):
         if e["kind"] == "connect" and e.get("result") in ("refused", "blackholed"):
             hist["fs:connect-" + e["result"]] += 1
     hist["fs:stop"] += 1 if r.stop_t is not None else 0
+    try:
+        situations(r, hist)
+    except Exception as e:  # noqa: BLE001  (coverage accounting must never decide a verdict)
+        hist["fs:situations-accounting-error:" + type(e).__name__] += 1
     for st in r.script["steps"]:
         if st["do"] not in ("send",):
             hist["fs:step-" + st["do"] + (":" + st.get("action", "") if st["do"] == "inject" else "")] += 1
+
+
+def situations(r, hist):
+    """Coverage: situations that REALLY OCCURRED in the run (read off the brokers' log and the client's own records,
+    not off the script)."""
+    cluster = r.cluster
+    reqs = produce_requests(cluster)
+    want = {sid: [(s["key"], v) for v in s["values"]] for sid, s in r.sends.items()}
+    recs = client_records(r) or {}
+    timeout = r.script.get("client", {}).get("timeout", 10000) / 1000.0
+    ok_sids = set(sid for sid, o in r.outcomes.items() if o and o[0][2] and o[0][3] is not None)
+    # ---- (d) one produce response with error 0 for some partitions and an error code for others
+    for e, _parts in reqs:
+        codes = [a["error"] for a in e.get("applied", []) if a.get("op") == "append"]
+        if e.get("fate") == "answered" and 0 in codes and any(c != 0 for c in codes):
+            q = recs.get(e.get("corr"))
+            got = q is not None and q["out"] is not None and q["out"][0] == "ok" and len(set(row[2] == 0 for row in q["out"][1])) == 2
+            hist["fs:produce-response-mixed-outcomes"] += 1
+            if got:
+                hist["fs:produce-response-mixed-outcomes:received-by-client"] += 1
+            for c in sorted(set(c for c in codes if c != 0)):
+                hist["fs:produce-response-mixed-outcomes:code=%d" % c] += 1
+    # ---- (a) refused by a former leader (genuinely: no injected error), acknowledged by another broker
+    apps = appends_of(r, reqs, want)
+    for sid in sorted(apps):
+        if sid not in ok_sids:
+            continue
+        topic = r.sends[sid]["topic"]
+        acked = [(e, a) for e, a in apps[sid] if a["error"] == 0 and ack_received(recs, e, a)]
+        refused = []
+        for e, parts in reqs:
+            if e.get("fault") is not None:
+                continue
+            for a in e.get("applied", []):
+                if a.get("op") == "append" and a["topic"] == topic and a["error"] in (6, 3) and not a["messages"] \
+                        and any(p[0] == topic and p[1] == a["partition"] and want[sid][0] in p[2] for p in parts):
+                    refused.append((e, a))
+        if not acked:
+            continue
+        e2 = acked[0][0]
+        refused = [(e, a) for e, a in refused if e["broker"] != e2["broker"] and e["n"] < e2["n"] and a["partition"] == acked[0][1]["partition"]]
+        if refused:
+            code = {6: "notleader", 3: "unknownpartition"}[refused[0][1]["error"]]
+            hist["fs:%s-then-success-elsewhere" % code] += 1
+            part = refused[0][1]["partition"]
+            mv = [m for m in r.moves if m["topic"] == topic and part in m["parts"]]
+            if any(sid in m["inflight"] for m in mv):
+                hist["fs:%s-then-success-elsewhere:batch-in-flight-when-leader-moved" % code] += 1
+            if any(e["corr"] in m["open_corrs"] for m in mv for e, _a in refused):
+                hist["fs:%s-then-success-elsewhere:request-on-the-wire-when-leader-moved" % code] += 1
+    # ---- (b) a broker at a new address
+    first_addr = {}
+    new_addrs = set()
+    for m in cluster.log:
+        if m["kind"] == "admin" and m.get("what") == "restart_broker":
+            b = m["broker"]
+            first_addr.setdefault(b, ("kafka%d.sim" % b, 9092))
+            if (m["host"], m["port"]) != first_addr[b]:
+                new_addrs.add((m["host"], m["port"]))
+                hist["fs:broker-restarted-at-new-address"] += 1
+    if new_addrs:
+        conns = set()
+        for m in cluster.log:
+            if m["kind"] == "connect" and (m["host"], m["port"]) in new_addrs and m.get("result") == "accepted":
+                conns.add(m["conn"])
+                hist["fs:new-address:connection-accepted"] += 1
+            elif m["kind"] == "connect" and m.get("broker") is None:
+                hist["fs:new-address:connect-to-abandoned-address-refused"] += 1
+        for e, _parts in reqs:
+            if e["conn"] in conns and e.get("fate") == "answered" and any(a["error"] == 0 for a in e.get("applied", [])):
+                hist["fs:new-address:produce-acknowledged-there"] += 1
+    # ---- (c) version discovery
+    av = cluster.requests(api="ApiVersions")
+    unanswered = [e for e in av if e.get("fate") != "answered" or (e.get("t_sent") is not None and e["t_sent"] - e["t"] >= timeout)]
+    if av:
+        hist["fs:apiversions-requests"] += len(av)
+    if unanswered:
+        hist["fs:apiversions-unanswered"] += len(unanswered)
+        for e in unanswered:
+            hist["fs:apiversions-unanswered:" + ("answered-late" if e.get("fate") == "answered" else str(e.get("fate")))] += 1
+        v = getattr(r.client, "_api_versions", None)
+        hist["fs:apiversions-unanswered:run-ends-" + ("undiscovered" if v is None else "fallback-v0" if v == 0 else "discovered")] += 1
+        if v == 0 and any(e["version"] == 0 for e, _p in reqs):
+            hist["fs:apiversions-unanswered:produce-v0-after-fallback"] += sum(1 for e, _p in reqs if e["version"] == 0)
+    if any((e.get("response") or {}).get("error_code") for e in av if e.get("fate") == "answered"):
+        hist["fs:apiversions-answered-with-error"] += 1
+    # ---- (e) answer later than the client's time-out, delivered to the client all the same; duplicates
+    for e, _parts in reqs:
+        if e.get("fate") == "answered" and e.get("t_sent") is not None and e["t_sent"] > e["t"]:
+            q = recs.get(e.get("corr"))
+            if q is not None and q["out"] is not None and q["out"][0] == "fail" and q["t_done"] is not None and q["t_done"] <= e["t_sent"]:
+                # (written to a connection that is open: the client reads an answer to a request it has given up)
+                hist["fs:produce-reply-delivered-after-client-timeout"] += 1
+                if any(a["error"] == 0 and a["messages"] for a in e.get("applied", [])):
+                    hist["fs:produce-reply-delivered-after-client-timeout:messages-were-appended"] += 1
+        elif e.get("fate") == "conn-closed" and e.get("response") is not None:
+            hist["fs:produce-reply-late-but-connection-closed"] += 1
+    for e, _parts in reqs:
+        if any(a.get("op") == "append" and a["error"] != 0 and a["messages"] for a in e.get("applied", [])) and e.get("fate") == "answered":
+            hist["fs:produce-error-reported-after-append"] += 1
+    for sid, l in sorted(apps.items()):
+        real = [(e, a) for e, a in l if a["messages"]]
+        if len(real) >= 2:
+            hist["fs:send-appended-more-than-once"] += 1
+            e1, a1 = real[0]
+            why = "ack-received(!)" if a1["error"] == 0 and ack_received(recs, e1, a1) else \
+                "error-reported-after-append" if a1["error"] != 0 else \
+                "reply-late" if e1.get("fate") == "answered" else "reply-" + str(e1.get("fate"))
+            hist["fs:send-appended-more-than-once:first-ack-" + why] += 1
+            if sid in ok_sids:
+                hist["fs:send-appended-more-than-once:and-then-acknowledged"] += 1
 
 
 def stage(ctx, res, pid):
